@@ -11,6 +11,7 @@ import (
 	"reflect"
 	"strconv"
 	"strings"
+	"time"
 )
 
 type replayFile struct {
@@ -265,6 +266,22 @@ func DrawCount() int                     { return -1 }
 func DrawKind(i int) int                 { return 0 }
 func DrawParam(i int, which int) float64 { return 0 }
 func DrawValue(i int) float64            { return 0 }
+
+// TimedOK runs f natively and reports whether it finished within the given number of seconds;
+// under the symbolic executor f is not run (the bounded-work monitor ClosureCallsMax decides).
+func TimedOK(f func(), seconds int) bool {
+	done := make(chan bool, 1)
+	go func() {
+		defer func() { recover(); done <- true }()
+		f()
+	}()
+	select {
+	case <-done:
+		return true
+	case <-time.After(time.Duration(seconds) * time.Second):
+		return false
+	}
+}
 
 func Summary() string {
 	return fmt.Sprintf("failures=%d reached=%s", len(Failures), strings.Join(Reached, ","))
